@@ -114,8 +114,12 @@ fn main() {
                     None => (-1, vec![], vec![]),
                 };
                 let is_ret = pn.is_return();
+                // labels attached to this node (C03: where a branch or jump to a label lands)
+                let mut labels: Vec<String> = n.labels().iter().map(|l| format!("\"{}\"", l.get().as_str())).collect();
+                labels.sort();
+                let labels = format!("[{}]", labels.join(","));
                 out.push(format!(
-                    "{{\"kind\":\"{kind}\",\"callee\":{callee},\"call_args\":{call_args:?},\"fexit\":{fexit},\"fargs\":{fargs:?},\"frets\":{frets:?},\"is_ret\":{is_ret},\"text\":\"{}\",\"inst\":{inst},\"label\":{label},\"call\":{},\"nexts\":{nexts:?},\"prevs\":{prevs:?},\"live_in\":{live_in:?},\"live_out\":{live_out:?},\"rin\":{},\"rout\":{},\"min\":{},\"mout\":{}}}",
+                    "{{\"kind\":\"{kind}\",\"labels\":{labels},\"callee\":{callee},\"call_args\":{call_args:?},\"fexit\":{fexit},\"fargs\":{fargs:?},\"frets\":{frets:?},\"is_ret\":{is_ret},\"text\":\"{}\",\"inst\":{inst},\"label\":{label},\"call\":{},\"nexts\":{nexts:?},\"prevs\":{prevs:?},\"live_in\":{live_in:?},\"live_out\":{live_out:?},\"rin\":{},\"rout\":{},\"min\":{},\"mout\":{}}}",
                     pn.to_string().replace('\\', "\\\\").replace('"', "'"),
                     pn.calls_to().is_some(),
                     regs_json(&n.reg_values_in()),
